@@ -356,11 +356,16 @@ def run_vrptw(case, policy, o: Outcome | None, ref: Ref, record=True):
         with seams.install_rng(RNG_MODULES, plan), seams.install_clock(clock):
             cust_arg = custs[1:]
             veh_arg = vehs
+            kw_cap = {}
             if case.get("as_tuples"):  # the documented tuple form of customers, and an int fleet when capacities are uniform
                 cust_arg = [(c.id, c.x, c.y, c.demand, c.tw_start, c.tw_end, c.service_time, c.required_vehicles) for c in custs[1:]]
+                caps = {v.capacity for v in vehs}
+                if len(caps) == 1:
+                    veh_arg = len(vehs)
+                    kw_cap = {"vehicle_capacity": caps.pop()}
             res = m.solve_vrptw(cust_arg, veh_arg, tuple(inst["depot"]), max_iter=case["max_iter"], max_no_improve=case["max_no_improve"],
                                 seed=case["seed"], on_progress=prog if case["interval"] else None,
-                                progress_interval=case["interval"], **(case.get("weights") or {}))
+                                progress_interval=case["interval"], **kw_cap, **(case.get("weights") or {}))
     except SOLVER_ERRORS as e:
         exc = e
     finally:
